@@ -78,7 +78,7 @@ def evaluate(e, env):
             recv = evaluate(e.func.value, env)
             if not isinstance(recv, str): raise Unsupported("method call on a non-string")
             return getattr(recv, e.func.attr)(*[evaluate(a, env) for a in e.args])      # Python's own str semantics (trusted base)
-        if isinstance(e.func, ast.Name) and e.func.id in ("len", "str", "bool", "list", "tuple", "sorted", "set", "dict", "id", "type") and not e.keywords: return {"len": len, "str": str, "bool": bool, "list": list, "tuple": tuple, "sorted": sorted, "set": set, "dict": dict, "id": id, "type": lambda o: o.get(".__class__") if isinstance(o, dict) and ".__class__" in o else type(o)}[e.func.id](*[evaluate(a, env) for a in e.args])
+        if isinstance(e.func, ast.Name) and e.func.id in ("len", "str", "bool", "list", "tuple", "sorted", "set", "dict", "id", "type", "any", "all", "sum", "min", "max") and not e.keywords: return {"any": any, "all": all, "sum": sum, "min": min, "max": max, "len": len, "str": str, "bool": bool, "list": list, "tuple": tuple, "sorted": sorted, "set": set, "dict": dict, "id": id, "type": lambda o: o.get(".__class__") if isinstance(o, dict) and ".__class__" in o else type(o)}[e.func.id](*[evaluate(a, env) for a in e.args])
         if isinstance(e.func, ast.Attribute) and e.func.attr in ("items", "keys", "values", "get", "pop", "clear", "setdefault") and not e.keywords:
             recv = evaluate(e.func.value, env)
             if isinstance(recv, dict) and not any(isinstance(k_, str) and k_.startswith(".") for k_ in recv):
